@@ -468,7 +468,8 @@ def gen_c10(rnd, n, thorough=False):
             lines += fill_ops(rnd, 'other/t.wsp', layout, m, xff, density=0.6, inconsistent=False)
             lines.append("symlink other/t.wsp s/%s/fl.wsp" % items[0].replace('.', '/'))
         if kind == 'one_unreadable':
-            lines += ["create s/%s/f9.wsp %s m %d x %08x" % (items[0].replace('.', '/'), fmt_layout(layout), m, xff), "drop s/%s/f9.wsp" % items[0].replace('.', '/')]
+            un = 'f9.wsp' if nfiles <= 9 else 'fz.wsp'          # (a name the item does not have yet)
+            lines += ["create s/%s/%s %s m %d x %08x" % (items[0].replace('.', '/'), un, fmt_layout(layout), m, xff), "drop s/%s/%s" % (items[0].replace('.', '/'), un)]
         wk, frm, until = window(rnd, layout)
         if odd and rnd.chance(0.7):
             wk, frm, until = 'narrow', '@-%d' % rnd.randint(2, layout[0][0] * layout[0][1] - 1), '0'
